@@ -19,6 +19,9 @@ structure DState where
   everLinked : List Nat := []        -- actors that had a supervisor in some snapshot of the implementation
   closedPrev : List Nat := []        -- the implementation's closed sets in its previous snapshot
   targets : List Nat := []
+  /-- `spawn_linked` racer: 0 = not started, 1 = cell created (Starting), 2 = start link accepted,
+  3 = from here on the new actor is a machine like the others (refused link: its cleanup; accepted: Running) -/
+  phase : Nat := 0
   /-- actors that lost their supervisor in a region of ANOTHER actor's thread (its `take_children`) -/
   taken : List Nat := []
 
@@ -54,9 +57,12 @@ kill test of the next worklist entry is replayed together with its `take_childre
 ghost flag), because WHICH entry is next is the `HashMap`'s choice: it is read off the implementation's
 snapshot — the actor whose set this region closed (`closed`) — and put first by a `shuffle`. -/
 def advance (g : CState) (a : Nat) (p q : String) (closed : List Nat) : CState :=
+  -- a region that ends at `tree.take` while the machine has not begun: the task took the kill signal in it
+  (fun g1 => if g1.pc a == .idle && q == "tree.take" then cstepN g1 (.begin a true) else g1) <|
   match p, g.pc a with
-  | "h.idle", .idle => if q == "tree.take" then cstepN g (.begin a true) else g
-  | "status.publish", .idle => xs (cstepN g (.begin a false)) a
+  | "status.publish", .idle =>
+    -- a freshly started actor's loop task publishes Running; anybody else at this point is on its way out
+    if g.t.status a == .starting then cstepN g (.setStatus a .running) else xs (cstepN g (.begin a false)) a
   | "status.publish", .pub => xs g a
   | "status.publish", .publishStopped => xs g a
   | "tree.take", .term _ pend none =>
@@ -129,20 +135,49 @@ def step (st : DState) (op impl : String) : DState × StepOut :=
   | ["g", tid, p] =>
     let tid := tid.toNat?.getD 0
     let q := ((impl.splitOn " |").getD 0 "").trimAscii.toString
-    let g1 := if tid < st.n then advance st.g tid p q closed
-              else match racerOp st.racer with
-                | some o => if p == "tree.link" || p == "tree.unlink" then cstepN st.g o else st.g
-                | none => st.g
+    let spawnl : Option Nat := match splitOnChar st.racer ':' with
+      | ["spawnl", sp] => sp.toNat?
+      | _ => none
+    let (g1, phase) :=
+      if tid < st.n then (advance st.g tid p q closed, st.phase)
+      else match spawnl with
+        | some sp =>
+          -- the racer thread runs `spawn_linked(.., supervisor = sp)` and then hosts the new actor `st.n`
+          if st.phase == 0 && p == "status.publish" then (cstepN st.g .spawn, 1)               -- Starting, pre_start
+          else if st.phase == 1 && p == "tree.link" then
+            let g' := cstepN st.g (.linkStart st.n sp)
+            -- refused: `start` returns Err, the lifecycle guard cleans the new cell up (still `Starting`)
+            (g', if g'.t.sup st.n == some sp then 3 else 4)
+          else if st.phase == 4 then
+            (if p == "status.publish" && st.g.pc st.n == .idle then (xs (cstepN st.g (.begin st.n false)) st.n, 3)
+             else (advance st.g st.n p q closed, 4))
+          else if st.phase == 3 then (advance st.g st.n p q closed, 3)
+          else (st.g, st.phase)
+        | none => match racerOp st.racer with
+          | some o => (if p == "tree.link" || p == "tree.unlink" then cstepN st.g o else st.g, st.phase)
+          | none => (st.g, st.phase)
     -- whose supervisor link did this region cut?
     let cut := match st.prev, cur with
-      | some pr, some c => (List.range c.n).filter (fun j => (pr.sup j).isSome && (c.sup j).isNone && tid < st.n && tid != j)
+      | some pr, some c => (List.range c.n).filter (fun j => (pr.sup j).isSome && (c.sup j).isNone &&
+          (tid < st.n || (spawnl.isSome && st.phase >= 3)) && tid != j)
       | _, _ => []
-    let st1 := { st with g := g1, taken := (st.taken ++ cut).eraseDups }
+    let st1 := { st with g := g1, phase := phase, taken := (st.taken ++ cut).eraseDups }
     let (orc, st2) := judge st1 []
     (st2, { model := s!"{q} | {showMx g1.t}", oracle := orc,
             nontrivial := p != "h.idle" || q != "h.idle", key := some s!"{st.racer} {op} {impl}" })
-  | ["rest"] =>
-    let extra := match cur with | some c => restClauses st c | none => []
+  | "rest" :: rws =>
+    -- a `spawn_linked` that returned `Err` leaves its cell Stopped
+    let spawnErr := match cur with
+      | some c => if get rws "spawn" == "err" && c.n > st.n && c.status st.n != .stopped then ["C05.spawn-err-not-stopped"] else []
+      | none => []
+    -- `spawn_linked` under a supervisor that has exited: Err, or the new child is terminated too
+    let spawnOk := match cur, (splitOnChar st.racer ':') with
+      | some c, ["spawnl", sp] =>
+        let sp := sp.toNat?.getD 0
+        if get rws "spawn" == "ok" && c.status sp == .stopped && c.n > st.n && c.status st.n != .stopped
+        then ["C05.race-orphan"] else []
+      | _, _ => []
+    let extra := (match cur with | some c => restClauses st c | none => []) ++ spawnErr ++ spawnOk
     let (orc, st2) := judge st extra
     (st2, { model := s!"ok | {showMx st.g.t}", oracle := orc, nontrivial := true })
   | _ => (st, { model := "?" })
